@@ -12,6 +12,8 @@
 (*             the string is not a number: refused; stored masked          *)
 (*   "mtime"   v = fractional nanoseconds or -1 for none; bad = no seconds *)
 (*             given; nanoseconds outside 0..999999999 are refused         *)
+(*   "mtimet"  the mtime given as a time value (builder.Time) v nanoseconds *)
+(*             after second 5: never refused, the value is normalised      *)
 (*   "bs"      v = number of block sizes supplied                          *)
 (*   "data", "fsize", "hash", "fanout": stored as given                    *)
 (* The option functions panic with an error value and the map assembler    *)
@@ -20,7 +22,7 @@
 (* present (empty when no "bs" option was given).                          *)
 (***************************************************************************)
 EXTENDS Integers, Sequences, FiniteSets
-FieldOf(o) == IF o.o \in {"perm", "permstr"} THEN "mode" ELSE o.o
+FieldOf(o) == IF o.o \in {"perm", "permstr"} THEN "mode" ELSE IF o.o = "mtimet" THEN "mtime" ELSE o.o
 Refused(o) == \/ (o.o = "type" /\ o.v \notin 0 .. 5)
               \/ (o.o = "permstr" /\ o.bad)
               \/ (o.o = "mtime" /\ (o.bad \/ o.v < -1 \/ o.v > 999999999))
@@ -32,5 +34,11 @@ Has(opts, name) == \E k \in 1 .. Len(opts) : FieldOf(opts[k]) = name
 Get(opts, name) == opts[CHOOSE k \in 1 .. Len(opts) : FieldOf(opts[k]) = name]
 TypeOf(opts) == IF Has(opts, "type") THEN Get(opts, "type").v ELSE 2
 ModeOf(opts) == IF Has(opts, "mode") THEN Get(opts, "mode").v % 4096 ELSE -1
+\* stored modification time: <<seconds, nanoseconds>>, -1 for an absent part
+MtimeOf(opts) == IF ~Has(opts, "mtime") THEN <<-1, -1>>
+                 ELSE LET o == Get(opts, "mtime") IN
+                      IF o.o = "mtimet" THEN <<5 + (o.v \div 1000000000), o.v % 1000000000>> ELSE <<5, o.v>>
+\* scalar fields are stored as given (-1: absent)
+ScalarOf(opts, name) == IF Has(opts, name) THEN Get(opts, name).v ELSE -1
 NBlockSizes(opts) == IF Has(opts, "bs") THEN Get(opts, "bs").v ELSE 0
 =============================================================================
